@@ -498,6 +498,17 @@ pub fn write_synthetic_dirs(root: &str, tier: Tier) {
     std::fs::create_dir_all(&d).unwrap();
     let t = ctehexml_text(&specs[1]).replacen("CONDUCTIVITY = 0.5\n    DENSITY = 1000", "CONDUCTIVITY = 0.25\n    DENSITY = 1400", 1).replacen("THICKNESS = ( 0.24)", "THICKNESS = ( 0.115)", 1);
     std::fs::write(format!("{}/same-names-other-contents.ctehexml", d), t).unwrap();
+    // the project of gen01 with its shade stated twice, word for word (the same thing said twice is still one project)
+    let d = format!("{}/shade-stated-twice", root);
+    std::fs::create_dir_all(&d).unwrap();
+    let t = ctehexml_text(&specs[1]);
+    if let Some(a) = t.find("\"Sombra001\" = BUILDING-SHADE") {
+        if let Some(e) = t[a..].find("\n    ..\n") {
+            let b = a + e + 8;
+            let t2 = format!("{}{}{}", &t[..b], &t[a..b], &t[b..]);
+            std::fs::write(format!("{}/shade-stated-twice.ctehexml", d), t2).unwrap();
+        }
+    }
     let d = format!("{}/only-tbl", root);
     std::fs::create_dir_all(&d).unwrap();
     let _ = std::fs::copy(format!("{}/gen01.ctehexml", src), format!("{}/only-tbl.ctehexml", d));
